@@ -63,6 +63,17 @@ func RunCheck(o CheckOpts) int {
 	for _, u := range units {
 		all = append(all, u.World.Obls...)
 	}
+	// obligations recorded as known findings are expected to stay undischarged: one short attempt is enough
+	// (a KF obligation that DOES get discharged is reported by Report as "no longer fails")
+	kfNames := map[string]bool{}
+	for _, kf := range loadKnownFindings(filepath.Join(o.Verif, "known_findings.json"), o.Prop) {
+		kfNames[kf.Obligation] = true
+	}
+	for _, ob := range all {
+		if kfNames[ob.Name] {
+			ob.KnownFailing = true
+		}
+	}
 	Discharge(all, SolverCfg{WorkDir: work, Timeout: timeout, AllAgree: o.Tier == "thorough"})
 	return Report(p, units, o, work)
 }
